@@ -357,6 +357,6 @@ MANIFEST = dict(
          'set {"..", ~*, drive prefix, any / or \\, any ${...}}, and the real _set_tokens defines %u exactly for the complement on all names <= 3-4 '
          'characters. Config resolution: the real parse() on generated texts - three Host blocks with matching / non-matching / negated patterns, four '
          'spellings of "=", optional global lines: first obtained value wins, list options accumulate; two files read in sequence or Included start '
-         'in the right state; Match criteria combine as a conjunction with negation; setters keep the first value and validate.',
+         'in the right state; Match criteria combine as a conjunction with negation; setters keep the first value and validate; every criterion of a Match line is evaluated (final requested, malformed criteria rejected) and ${ENV} text is inserted verbatim, never re-scanned for %tokens.',
     note='shlex quoting, real-filesystem Include globbing (Path.glob is stubbed), Match exec/localnetwork, canonicalisation and agreement with `ssh -G` '
          'are outside. Trusted: z3 regex theory and vf/engine_c.py (cross-checked against re on sample strings), CrossHair, the reference in props/C18.py.')
